@@ -63,7 +63,9 @@ def main():
             if demo.exists():
                 r = sh(f"cd {REPO} && /venv/bin/python {demo}", timeout=300)
                 row["demo_with_patch"] = r.returncode
-            props = [pid] if "--all-props" not in sys.argv else [f"C{i:02d}" for i in range(1, 19)]
+            # a change can be outside its nominal property as the checks read it and still break another one:
+            # meta.json may name the checks that are expected to catch it
+            props = (meta.get("check_properties") or [pid]) if "--all-props" not in sys.argv else [f"C{i:02d}" for i in range(1, 19)]
             for p in props:
                 t0 = time.time()
                 r = sh(f"cd {VERIF} && ./check {p} --tier {tier}", env=env, timeout=1800)
